@@ -206,6 +206,24 @@ class Compositions(Facet):
                     f"C15/composition/{culprit(j)}/{formclass}/{rel}/{'over' if n > k else 'under'}",
                     f"{step_str(j)} on {case['size']} individuals ({form}) asked for {k} yielded {n}",
                 )
+                return
+            # the SAME step object asked again for another size (a step is configured once and
+            # reused, e.g. across generations and runs)
+            step = build_step(j)
+            size2 = case["size"] + 1 + case["seed"] % 4
+            k2 = max(2, size2 - case["seed"] % 3)
+            try:
+                apply_and_count(step, w, problem, ev, pop, k, "list", tracker)
+                pop2 = make_population(w, size2, problem, ev)
+                n2 = apply_and_count(step, w, problem, ev, pop2, k2, "list", tracker)
+            except Exception as e:  # noqa: BLE001
+                rec.fail(f"C15/composition-reused/{culprit(j)}/raised-{type(e).__name__}", f"{step_str(j)} reused with target {k2} after target {k}: raised {e!r}")
+                return
+            if n2 != k2:
+                rec.fail(
+                    f"C15/composition-reused/{culprit(j)}/{'over' if n2 > k2 else 'under'}",
+                    f"the same {step_str(j)} object asked for {k} of {case['size']} and then for {k2} of {size2} individuals yielded {n2} the second time",
+                )
         finally:
             w.cleanup()
 
